@@ -85,7 +85,7 @@ func (w *world) stepHeight(forceTxs int) {
 	}
 	for i := 0; i < ntx; i++ {
 		g := (*genTx)(nil)
-		if w.dex != nil && t.Chance(3, 5) {
+		if w.dex != nil && w.dex.on && t.Chance(3, 5) {
 			g = w.genDexTx(ups[0])
 		} else {
 			g = w.genTx(ups[0])
@@ -106,7 +106,7 @@ func (w *world) stepHeight(forceTxs int) {
 	if c.Prop == "C06" && t.Chance(2, 3) || c.Prop != "C06" && t.Chance(1, 8) {
 		w.replayAttack()
 	}
-	if w.dex != nil && t.Chance(4, 5) {
+	if (w.dex != nil && w.dex.on || w.slash != nil) && t.Chance(4, 5) {
 		w.nestedCertificate(ups[0])
 	}
 	// 2. proposer
@@ -199,6 +199,7 @@ func (w *world) stepHeight(forceTxs int) {
 	}
 	w.chain = append(w.chain, &chainRec{height: h, blockHash: pr.block.BlockHeader.Hash, qc: qc, proposer: p.idx})
 	w.checkIncluded(h, pr.block.Transactions)
+	w.lastBlockTxs = pr.block.Transactions
 	for _, tx := range pr.block.Transactions {
 		w.included[string(tx)] = h
 	}
@@ -346,6 +347,7 @@ func (w *world) afterCommitOracles(what string) {
 			w.checkStaking(n, s, what)
 			w.checkCommittee(n, s, what)
 			w.checkDex(n, s, what)
+			w.checkSlashing(n, s, what, w.lastBlockTxs)
 			if c.Prop == "C19" {
 				w.checkKeys(n, s.keys, what)
 			}
